@@ -42,7 +42,7 @@ def B(x):
 
 def write_cfg(name, n, nt, ops, grap=False, spur=True, rec=False, emit=None, invs=INVS, view=True, trace=False):
     os.makedirs(vlib.BUILD, exist_ok=True)
-    p = os.path.join(vlib.BUILD, name + ".cfg")
+    p = os.path.join(vlib.cfgdir(), name + ".cfg")
     extra = ""
     if emit:
         extra += "ACTION_CONSTRAINT %s\n" % emit
